@@ -881,17 +881,17 @@ pub fn run(args: &Args) -> i32 {
     .assume("accept-iff is demanded only for constraints the code itself declares valid for the resource kind (validate_* document validity as a precondition; the static manifest validator enforces it)")
     .assume("a fungible balance has no ids: required ids must be empty and an allow-list is vacuous for it")
     .assume("balances are non-negative and at most Decimal::MAX")
-    .floor("evaluations", args.tier.pick(100_000_000, 1_500_000_000))
-    .floor("normalize_comparisons", args.tier.pick(25_000_000, 400_000_000))
-    .floor("normalize_changed_fields", args.tier.pick(50_000, 700_000))
-    .floor("witness_built", args.tier.pick(200_000, 3_000_000))
-    .floor("valid:should-accept", args.tier.pick(15_000_000, 200_000_000))
-    .floor("valid:should-reject", args.tier.pick(30_000_000, 500_000_000))
-    .floor("valid_constraints_with_mixed_outcomes", args.tier.pick(150_000, 2_000_000))
-    .floor("constraints:General:nonfungible:valid", args.tier.pick(60_000, 1_000_000))
-    .floor("constraints:General:fungible:valid", args.tier.pick(30_000, 500_000))
-    .floor("set:should-accept", args.tier.pick(500_000, 8_000_000))
-    .floor("set:should-reject", args.tier.pick(1_000_000, 15_000_000))
+    .floor("evaluations", args.tier.pick(16666666, 250000000))
+    .floor("normalize_comparisons", args.tier.pick(4166666, 66666666))
+    .floor("normalize_changed_fields", args.tier.pick(8333, 116666))
+    .floor("witness_built", args.tier.pick(33333, 500000))
+    .floor("valid:should-accept", args.tier.pick(2500000, 33333333))
+    .floor("valid:should-reject", args.tier.pick(5000000, 83333333))
+    .floor("valid_constraints_with_mixed_outcomes", args.tier.pick(25000, 333333))
+    .floor("constraints:General:nonfungible:valid", args.tier.pick(10000, 166666))
+    .floor("constraints:General:fungible:valid", args.tier.pick(5000, 83333))
+    .floor("set:should-accept", args.tier.pick(83333, 1333333))
+    .floor("set:should-reject", args.tier.pick(166666, 2500000))
     .explain("evaluations = (constraint, balance) validations compared with the meaning (original and normalised form counted separately); \
               distinct_nontrivial = distinct (constraint kind, resource kind, validity, bound classes, |required|, |allowlist|, accepted/total) behaviours");
     let mut report = Report::new(args, spec);
